@@ -37,17 +37,17 @@ type fakeSyncPeers struct {
 	reqs     [][2]uint64
 }
 
-func (f *fakeSyncPeers) Start() error                                 { return nil }
-func (f *fakeSyncPeers) Stop() error                                  { return nil }
-func (f *fakeSyncPeers) AsyncSend(peermgr.KeyType, *pb.Message) error { return nil }
-func (f *fakeSyncPeers) CountConnectedPeers() uint64                  { return 3 }
-func (f *fakeSyncPeers) Peers() map[string]*peer.AddrInfo             { return nil }
-func (f *fakeSyncPeers) AddNode(uint64, *pb.VpInfo)                   {}
-func (f *fakeSyncPeers) DelNode(uint64)                               {}
-func (f *fakeSyncPeers) Disconnect(map[uint64]*pb.VpInfo)             {}
-func (f *fakeSyncPeers) OrderPeers() map[uint64]*pb.VpInfo            { return nil }
-func (f *fakeSyncPeers) OtherPeers() map[uint64]*peer.AddrInfo        { return nil }
-func (f *fakeSyncPeers) Broadcast(*pb.Message) error                  { return nil }
+func (f *fakeSyncPeers) Start() error                                  { return nil }
+func (f *fakeSyncPeers) Stop() error                                   { return nil }
+func (f *fakeSyncPeers) AsyncSend(peermgr.KeyType, *pb.Message) error  { return nil }
+func (f *fakeSyncPeers) CountConnectedPeers() uint64                   { return 3 }
+func (f *fakeSyncPeers) Peers() map[string]*peer.AddrInfo              { return nil }
+func (f *fakeSyncPeers) AddNode(uint64, *pb.VpInfo)                    {}
+func (f *fakeSyncPeers) DelNode(uint64)                                {}
+func (f *fakeSyncPeers) Disconnect(map[uint64]*pb.VpInfo)              {}
+func (f *fakeSyncPeers) OrderPeers() map[uint64]*pb.VpInfo             { return nil }
+func (f *fakeSyncPeers) OtherPeers() map[uint64]*peer.AddrInfo         { return nil }
+func (f *fakeSyncPeers) Broadcast(*pb.Message) error                   { return nil }
 func (f *fakeSyncPeers) UpdateRouter(map[uint64]*pb.VpInfo, bool) bool { return false }
 func (f *fakeSyncPeers) SubscribeOrderMessage(ch chan<- peermgr.OrderMessageEvent) event.Subscription {
 	return event.NewSubscription(func(q <-chan struct{}) error { <-q; return nil })
@@ -181,24 +181,24 @@ func (c *ordChild) send(m *wireMsg) {
 }
 
 type ordNet struct {
-	mu        sync.Mutex
-	children  map[uint64]*ordChild
-	rng       *rand.Rand
-	dropP     float64
-	dupP      float64
-	maxDelay  time.Duration
-	isolated  map[uint64]bool
-	delivered map[uint64]uint64 // id -> highest delivered height (from "deliver" notices)
-	pendReq   map[string]uint64 // "<to>/<fwdID>" -> origin
-	stats     map[string]int64
-	self      string
+	mu         sync.Mutex
+	children   map[uint64]*ordChild
+	rng        *rand.Rand
+	dropP      float64
+	dupP       float64
+	maxDelay   time.Duration
+	isolated   map[uint64]bool
+	delivered  map[uint64]uint64 // id -> highest delivered height (from "deliver" notices)
+	pendReq    map[string]uint64 // "<to>/<fwdID>" -> origin
+	stats      map[string]int64
+	self       string
 	sentLately map[uint64]int64
 	lag        int
-	timed     bool
-	typ       string
-	n         int
-	batch     int
-	base      string
+	timed      bool
+	typ        string
+	n          int
+	batch      int
+	base       string
 }
 
 func (nw *ordNet) count(k string) { nw.mu.Lock(); nw.stats[k]++; nw.mu.Unlock() }
